@@ -21,6 +21,7 @@ Gen2None == ("v2" :> <<>>)
 Gen2Q1 == ("v2" :> <<P1(101)>>)
 Gen2Q2 == ("v2" :> <<P2(101)>>)
 ScriptQ12 == ("w1" :> <<P1(1), P2(2)>>)
+ScriptQ222 == ("w1" :> <<P2(1), P2(2), P2(3)>>)
 ScriptOne == ("w1" :> <<P1(1)>>)
 ScriptQ2  == ("w1" :> <<P2(1)>>)
 ScriptTwo == ("w1" :> <<P1(1), P2(2)>>) @@ ("w2" :> <<P1(3)>>)
